@@ -4,6 +4,7 @@ import (
 	"fmt"
 	"math/rand"
 	"strings"
+	"time"
 
 	"verifharness/kit"
 
@@ -156,5 +157,54 @@ func c05RunSpellings(c *kit.Ctx) {
 			c.Violation("C05:spelling:unregistered-stream-still-returned", detail)
 			media.Unregist(g)
 		}
+	}
+}
+
+// c05CountsUnderConcurrentStop: "the reported ... consumer counts and listings always match the set of live streams" also
+// when one consumer is detached twice at the same moment (an administrative stop racing the client's own disconnect):
+// the first StopConsume is held after it has looked the consumer up (hook point media.remove.loaded, outside any lock),
+// the second runs to completion, then the first is released. Afterwards the count must equal the number of consumers
+// the listing shows, and a stream that still has a viewer must not be idle-closed.
+func c05CountsUnderConcurrentStop(c *kit.Ctx) {
+	kit.InstallHooks()
+	rounds := c.Pick(6, 60)
+	for ri := 0; ri < rounds; ri++ {
+		if !c.Mine(ri) {
+			continue
+		}
+		nCons := 2 + ri%3
+		kind := []media.PacketType{media.RTPPacket, media.FLVPacket}[ri%2]
+		path := fmt.Sprintf("/c05cnt/s%d/%d", c.Shard, ri)
+		c.Pre(fmt.Sprintf("C05 counts under concurrent stop: %d consumers", nCons))
+		s := media.NewStream(path, kit.SDPH264AAC)
+		media.Regist(s)
+		var cids []media.CID
+		for k := 0; k < nCons; k++ {
+			cids = append(cids, s.StartConsume(&kit.RecConsumer{}, kind, "c05"))
+		}
+		g := kit.H.Gate("media.remove.loaded", nil)
+		first := make(chan struct{})
+		go func() { s.StopConsume(cids[0]); close(first) }()
+		if !g.WaitArrived(5 * time.Second) {
+			g.Release()
+			<-first
+			c.Inconclusive("counts under concurrent stop: hook point not reached")
+			media.Unregist(s)
+			continue
+		}
+		s.StopConsume(cids[0]) // the second detach of the same consumer, complete
+		g.Release()
+		<-first
+		c.Eval(1)
+		c.Distinct(fmt.Sprintf("concurrent-stop/%d/%v", nCons, kind))
+		info := s.Info(true)
+		listed := len(info.Consumptions)
+		detail := map[string]interface{}{"attached_before": nCons, "listed_after": listed, "ConsumerCount": s.ConsumerCount(), "info_count": info.ConsumptionCount}
+		if s.ConsumerCount() != listed || listed != nCons-1 {
+			c.Violation("C05:counts:consumer-count-differs-from-attached-consumers-after-concurrent-stop", detail)
+		} else if closed := media.VerifIdleDecision(s, media.StreamNoConsumer, 0); closed {
+			c.Violation("C05:idle:closed-although-audience-present:after-concurrent-stop", detail)
+		}
+		media.Unregist(s)
 	}
 }
